@@ -4,6 +4,7 @@ from __future__ import annotations
 
 import abc
 import contextlib
+import dataclasses
 import datetime
 import decimal
 import enum
@@ -1018,7 +1019,15 @@ class StructuredTypeUnmarshaller(AbstractUnmarshaller[_ST]):
     def _fields_by_var(self):
         fields_by_var = {}
         hints = inspection.cached_type_hints(self.t)
+        # A dataclass field declared with `init=False` is no parameter of the constructor.
+        noinit = (
+            {f.name for f in dataclasses.fields(self.t) if not f.init}
+            if dataclasses.is_dataclass(self.t)
+            else ()
+        )
         for name, hint in hints.items():
+            if name in noinit:
+                continue
             resolved = refs.evaluate(hint)
             m = self.context.get(hint) or self.context.get(resolved)
             if m is None:
